@@ -36,7 +36,7 @@ ASSUMPTIONS = ['nesting deeper than 10**5 (parser stack, memory) is not enumerat
 BOUNDS = {
     'quick': '(a) <=2 lexemes over 64 and 3 over a 26-lexeme core, x{space,none} x 5 engines (3 stock, 2 customised with suffix ! / prefix ~ and **); (b) 30 expressions x 46 chars x 3 engines; '
              '(c) bodies <=4 over 18 symbols x 3 styles, \\x \\u fields over {0,1,f,Z,quote}, \\U field over {0,1,f,Z}; '
-             '(d) 24 kinds of long token / deep nesting x lengths 1..10**5 (digits-then-letter only up to 4301: quadratic lexing time); (e) all 65536 BMP code points x 5 contexts + 4 escape contexts (the code point where the escaped character, a digit field or a \\N name is expected) + 64 astral x 16 contexts',
+             '(d) 27 kinds of long token / deep nesting, and 11 token kinds in 3 positions where the grammar does not expect them, x 14 lengths 1..10**5 (digits-then-letter only up to 4301: quadratic lexing time); (e) all 65536 BMP code points x 5 contexts + 4 escape contexts (the code point where the escaped character, a digit field or a \\N name is expected) + 64 astral x 16 contexts',
     'thorough': 'as quick with (a) 3 lexemes over all 64 and 4 over the core (default engine), (c) bodies of length 5 in single quotes, \\U field over {0,1,f,Z,quote} (5**8) x 3 styles, '
                 '(e) additionally every code point of planes 1, 2, 14, 15, 16 alone and 11 escape contexts per BMP code point',
 }
@@ -65,7 +65,7 @@ NAMES = ['LATIN SMALL LETTER A', 'latin small letter a', 'BULLET', 'nope', '', '
          'é', 'CJK UNIFIED IDEOGRAPH-4E00', 'LATIN SMALL LETTER A WITH ACUTE AND NOTHING']
 OCTAL = ['\\0', '\\7', '\\8', '\\9', '\\00', '\\77', '\\78', '\\000', '\\377', '\\400', '\\777', '\\778', '\\0000',
          '\\1234', '\\7777', '\\08', '\\18\\7']
-LENGTHS = [1, 17, 308, 309, 310, 4299, 4300, 4301, 10 ** 4, 10 ** 5]
+LENGTHS = [1, 17, 64, 65, 256, 257, 308, 309, 310, 4299, 4300, 4301, 10 ** 4, 10 ** 5]
 
 # engines customised through the public insertion API: the grammar actions for suffix/prefix operators and the
 # lexer rules for new symbols only exist there
@@ -268,7 +268,18 @@ def job_escape_names():
 # --------------------------------------------------------------------------
 # (d) long tokens
 # --------------------------------------------------------------------------
+TOKEN_KINDS = ['int', 'int0', 'float-int-part', 'float-fraction', 'arabic-digits', 'keyword', 'variable', 'string',
+               'string-escapes', 'verbatim', 'underscores']
+
+
 def long_text(what, n):
+    # a long token where the grammar does not expect it: the error message has to name it
+    if what.startswith('misplaced:'):
+        return '1 ' + long_text(what[10:], n)
+    if what.startswith('before-misplaced:'):
+        return long_text(what[17:], n) + ' 1'
+    if what.startswith('in-call-misplaced:'):
+        return 'f(1 ' + long_text(what[18:], n) + ')'
     if what == 'int':
         return '9' * n
     if what == 'int0':
@@ -331,6 +342,7 @@ LONG_KINDS = ['int', 'int0', 'float-int-part', 'float-fraction', 'float-both', '
               'unterminated-dq', 'unterminated-bq', 'apostrophe-in-words',
               'digits-then-letter', 'underscores', 'illegal', 'minus-chain', 'nested-parens', 'nested-lists', 'nested-calls',
               'plus-chain', 'dot-chain', 'open-parens']
+LONG_KINDS += [p + k for p in ('misplaced:', 'before-misplaced:', 'in-call-misplaced:') for k in TOKEN_KINDS]
 
 
 # '999...9a' makes the NUMBER rule backtrack quadratically (2 s at 10**4 digits, minutes at 10**5): it terminates,
